@@ -7,9 +7,10 @@
   I/O thread and the new BridgeIfaceWrapper's I/O thread run under a forced schedule.
 
 stdin : {"cases": [case, ...]}
-  bridge case = {"kind": "bridge", "held": [frame..], "ev0": [frame..], "spont": [[frame..]..],
-                 "prefix": [action..], "tail": bool, "cap": int}
-  action = 0 application (Bridge.__init__), 2 reader, 3 old connector I/O, 6 wrapper I/O, 5 emit
+  bridge case = {"kind": "bridge", "in": side, "out": side, "prefix": [action..], "tail": bool, "cap": int}
+  side = {"locked": bool, "held": [frame..], "ev0": [frame..], "spont": [[frame..]..]}
+  action = 0 application (Bridge.__init__); input side: 2 reader, 3 old connector I/O, 6 wrapper I/O, 5 emit;
+           output side: 12, 13, 16, 15
 stdout: RESULT {"results": [...]}
 """
 import sys, os, json, time as _rt
@@ -19,8 +20,11 @@ from C04 import S, D, K, B, mk, classify, classify_packet, NativeDev
 
 import whad.device.bridge as BR
 
-A, R, C, X, EMIT = 0, 2, 3, 6, 5
-TN = {A: "A", R: "R0", C: "C0", X: "X0"}
+A = 0
+# per side: reader, old connector I/O, wrapper I/O, emit
+SIDE = {"in": {"R": 2, "C": 3, "X": 6, "E": 5, "idx": 0}, "out": {"R": 12, "C": 13, "X": 16, "E": 15, "idx": 1}}
+TN = {0: "A", 2: "R0", 3: "C0", 6: "X0", 12: "R1", 13: "C1", 16: "X1"}
+EMITS = {5: "in", 15: "out"}
 
 
 class OldConn(K.Connector):
@@ -28,6 +32,7 @@ class OldConn(K.Connector):
     def __init__(self, dev):
         self.delivered = []
         self.dispatched = []
+        self.on_packets = []
         super().__init__(dev)
 
     def on_any_msg(self, message):
@@ -43,10 +48,17 @@ class OldConn(K.Connector):
         pass
 
     def on_packet(self, packet):
-        self.dispatched.append(classify_packet(packet))
+        self.on_packets.append(classify_packet(packet))
 
     def on_event(self, event):
         pass
+
+    def _Connector__process_pkt_message(self, message):
+        s = S.cur()
+        if s is not None:
+            s.yield_point("dispatch")
+        self.dispatched.append(classify(message))
+        return base._PROCESS_PKT(self, message)
 
 
 def namer(t):
@@ -63,7 +75,7 @@ def namer(t):
 class RecBridge(BR.Bridge):
     """Bridge recording what its wrappers hand to on_any_msg (observation only)."""
     def on_any_msg(self, wrapper, message):
-        self.relayed_w.append(classify(message))
+        self.relayed_w[wrapper.device.index].append(classify(message))
         super().on_any_msg(wrapper, message)
 
 
@@ -71,53 +83,55 @@ def run_bridge(case):
     s = S.new_sched(watchdog=15.0)
     s.namer = namer
     s.record = True
-    din, dout = NativeDev([], 3), NativeDev([], 3)
-    din._Device__index, dout._Device__index = 0, 1
-    cin, cout = OldConn(din), OldConn(dout)
-    for c in (cin, cout):
-        c._Connector__callbacks_lock.yielding = False
-    cin.lock()
-    for fr in case.get("held", []):
-        cin._Connector__locked_pdus.put(mk(fr))
-    for fr in case.get("ev0", []):
-        cin.send_event(D.MessageReceived(din, mk(fr)))
-    D.DevOutThread(din).start()
-    spont = list(case.get("spont", []))
+    devs = {"in": NativeDev([], 3), "out": NativeDev([], 3)}
+    devs["in"]._Device__index, devs["out"]._Device__index = 0, 1
+    conns = {k: OldConn(d) for k, d in devs.items()}
+    spont = {}
+    for k in ("in", "out"):
+        side = case.get(k, {})
+        if side.get("locked", k == "in"):
+            conns[k].lock()
+        for fr in side.get("held", []):
+            conns[k]._Connector__locked_pdus.put(mk(fr))
+        for fr in side.get("ev0", []):
+            conns[k].send_event(D.MessageReceived(devs[k], mk(fr)))
+        D.DevOutThread(devs[k]).start()
+        spont[k] = list(side.get("spont", []))
     out = {"done": False, "bridge": None}
-    RecBridge.relayed_w = []
+    sched = []
 
     def app():
         br = RecBridge.__new__(RecBridge)
-        br.relayed_w = []
+        br.relayed_w = {0: [], 1: []}
         out["bridge"] = br
-        BR.Bridge.__init__(br, cin, cout)
+        BR.Bridge.__init__(br, conns["in"], conns["out"])
         out["done"] = True
         out["done_at"] = len(sched)
 
-    sched = []
     s.spawn("A", app)
 
     def can(a):
-        if a == EMIT:
-            return bool(spont)
+        if a in EMITS:
+            return bool(spont[EMITS[a]])
         return s.enabled(TN[a])
 
     def do(a):
         sched.append(a)
-        if a == EMIT:
-            if spont:
-                din.wire.append(din.encode(spont.pop(0)))
+        if a in EMITS:
+            k = EMITS[a]
+            if spont[k]:
+                devs[k].wire.append(devs[k].encode(spont[k].pop(0)))
         elif a in TN:
             s.step(TN[a])
 
     for a in case.get("prefix", []):
         do(int(a))
-    cap = int(case.get("cap", 1500))
+    cap = int(case.get("cap", 2500))
     capped = False
     if case.get("tail", True):
         while True:
             ran = False
-            for a in (EMIT, A, R, C, X):
+            for a in (5, 15, 0, 2, 3, 6, 12, 13, 16):
                 if can(a):
                     do(a)
                     ran = True
@@ -128,23 +142,27 @@ def run_bridge(case):
                 break
     br = out["bridge"]
     evq = lambda q: [classify(e.message) for e in q.items() if isinstance(e, D.MessageReceived)]
-    wrap = getattr(br, "_Bridge__in_wrapper", None)
-    obs = {
-        "peer": [classify(m) for m in dout._Device__in_messages.items()],
-        "lost": cin.dispatched,
-        "lq": [classify(m) for m in cin._Connector__locked_pdus.items()],
-        "deliv_o": cin.delivered,
-        "deliv_w": br.relayed_w if br is not None else [],
-        "ev_o": evq(cin._Connector__events),
-        "ev_w": evq(wrap._Connector__events) if wrap is not None and hasattr(wrap, "_Connector__events") else [],
-        "locked": bool(cin._Connector__locked),
-        "done": bool(out["done"]),
-        "dead": bool(s.threads["R0"].done),
-    }
+    obs = {"done": bool(out["done"])}
+    other = {"in": "out", "out": "in"}
+    for k in ("in", "out"):
+        wrap = getattr(br, "_Bridge__%s_wrapper" % k, None)
+        c = conns[k]
+        obs[k] = {
+            "peer": [classify(m) for m in devs[other[k]]._Device__in_messages.items()],
+            "lost": c.dispatched,
+            "lq": [classify(m) for m in c._Connector__locked_pdus.items()],
+            "deliv_o": c.delivered,
+            "deliv_w": br.relayed_w[SIDE[k]["idx"]] if br is not None else [],
+            "ev_o": evq(c._Connector__events),
+            "ev_w": evq(wrap._Connector__events) if wrap is not None and hasattr(wrap, "_Connector__events") else [],
+            "locked": bool(c._Connector__locked),
+            "dead": bool(s.threads["R%d" % SIDE[k]["idx"]].done),
+            "on_packets": c.on_packets,
+        }
     info = {"crashed": {n: type(t.exc).__name__ for n, t in s.threads.items() if t.exc is not None},
             "pending": {n: t.label for n, t in s.threads.items() if not t.done},
-            "wire_left": len(din.wire), "spont_left": len(spont), "done_at": out.get("done_at"),
-            "peer_in_q_other": len(din._Device__in_messages.items()),
+            "wire_left": len(devs["in"].wire) + len(devs["out"].wire),
+            "spont_left": len(spont["in"]) + len(spont["out"]), "done_at": out.get("done_at"),
             "labelset": sorted({base.canon_label(t, l) for (t, l, k) in s.trace if k == "run"})}
     S.drop_sched()
     return {"sched": sched, "obs": obs, "capped": capped, "info": info}
